@@ -128,6 +128,10 @@ class DynamicEndmarkerField(Field):
             decode_state.cursor_byte_position = tmp_cursor
 
             result.append(self.structure.decode_from_pdu(decode_state))
+            if decode_state.cursor_byte_position <= tmp_cursor:
+                # avoid looping forever if the items are empty
+                raise DecodeError(f"The items of dynamic endmarker field {self.short_name} "
+                                  f"do not consume any data")
 
         decode_state.origin_byte_position = orig_origin
 
